@@ -68,6 +68,7 @@ type Frame struct {
 	curR     string
 	siteCnt  map[string]int
 	siteOrd  map[interface{}]int
+	hints    []string
 	freeVars []Val
 	params   []Val
 	safety   map[string]bool
@@ -512,4 +513,25 @@ func (fr *Frame) constVal(c *ssa.Const) Val {
 		}
 	}
 	return vc.zeroVal(t)
+}
+
+// hintTerms: Int terms the code uses as indices / loop counters (instantiation hints).
+func (fr *Frame) hintTerms() []string {
+	if len(fr.hints) > 8 {
+		return fr.hints[:8]
+	}
+	return fr.hints
+}
+
+func (fr *Frame) addHint(t string) {
+	top := fr.top
+	if len(t) > 60 {
+		return
+	}
+	for _, h := range top.hints {
+		if h == t {
+			return
+		}
+	}
+	top.hints = append(top.hints, t)
 }
